@@ -601,7 +601,7 @@ func c10Exec(t *testing.T, r *kit.Run) func(wProg) kit.Outcome {
 		if len(obs.tainted) > 0 {
 			o.Classes = append(o.Classes, "offline-set(not judged)")
 		}
-		if fail != "" {
+		if fail != "" && res.Viol == nil {
 			o.Skip = true
 			fmt.Println("C10 bubble failure (not judged here):", firstLine(fail))
 			return o
